@@ -146,3 +146,27 @@ func (e *eng) GoodMustStore(x int) {
 	}
 	e.flag = true
 }
+
+// LIMB controls: a schoolbook 64x64->128 multiplication with the carry of the wrong word, and the right one.
+type U128 struct {
+	Lo, Hi uint64
+}
+
+func BadMul64(a, b uint64) U128 {
+	x1 := (a & 0xFFFFFFFF) * (b & 0xFFFFFFFF)
+	x2 := (a>>32)*(b&0xFFFFFFFF) + (x1 >> 32)
+	x3 := (a&0xFFFFFFFF)*(b>>32) + (x2 & 0xFFFFFFFF)
+	return U128{Lo: ((x3 & 0xFFFFFFFF) << 32) | (x1 & 0xFFFFFFFF), Hi: (a>>32)*(b>>32) + (x1 >> 32) + (x3 >> 32)}
+}
+
+func GoodMul64(a, b uint64) U128 {
+	x1 := (a & 0xFFFFFFFF) * (b & 0xFFFFFFFF)
+	x2 := (a>>32)*(b&0xFFFFFFFF) + (x1 >> 32)
+	x3 := (a&0xFFFFFFFF)*(b>>32) + (x2 & 0xFFFFFFFF)
+	return U128{Lo: ((x3 & 0xFFFFFFFF) << 32) | (x1 & 0xFFFFFFFF), Hi: (a>>32)*(b>>32) + (x2 >> 32) + (x3 >> 32)}
+}
+
+// a 64-bit product that may wrap, compared (the shortcut in front of the 128-bit path)
+func BadProdEq(a, b, c, d uint64) bool {
+	return a*b == c*d
+}
